@@ -624,10 +624,10 @@ async fn storage_large_case(case: u64, rng: &mut Rng, st: &mut Stats) {
     let _ = db.close().await;
 }
 
-/// The `vector_untyped_case` scenario through Collection::update / get.
+/// The `vector_untyped_case` scenario through Collection::update / get / remove.
 async fn storage_vector_untyped_case(case: u64, rng: &mut Rng, st: &mut Stats) {
     let cfg = CONFIGS[(case % 4) as usize];
-    let (ft, v) = vector_in_untyped_value(rng);
+    let (ft, v, variant, fits) = vector_in_untyped_value(rng);
     let Ok(schema) = build_schema(&[("v".to_string(), ft.clone())], 1) else {
         return st.inconclusive("harness: schema");
     };
@@ -641,25 +641,52 @@ async fn storage_vector_untyped_case(case: u64, rng: &mut Rng, st: &mut Stats) {
     doc.set_id(0);
     let mut g = G { rng: &mut *rng, boundary: false };
     let first = gen_valid(&ft, &mut g, false);
-    if doc.set_field("v", first).is_err() {
+    if doc.set_field("v", first.clone()).is_err() {
         return st.inconclusive("harness: seed document refused");
     }
     let Ok(id) = coll.add(doc).await else {
         return st.inconclusive("harness: seed add refused");
     };
     st.eval();
+    let detail = |e: String| {
+        json!({"id": id, "type": brief(&ft, 300), "value": brief(&v, 400), "variant": variant, "config": cfg_label(cfg), "error": e,
+            "note": "the document can no longer be read, updated or removed through the collection"})
+    };
     match coll.update(id, BTreeMap::from([("v".to_string(), v.clone())])).await {
-        Err(_) => st.count("grey_rejected:collection_update"),
+        Err(_) => {
+            st.count("grey_rejected:collection_update");
+            st.count(&format!("storage_vector_untyped:{}:rejected", if fits { "read_back_within_budget" } else { "read_back_over_budget" }));
+            // a refused update leaves the stored document as it was
+            match coll.get(id).await {
+                Ok(d) if d.get_field("v").map(|x| fv_eq(x, &first)).unwrap_or(false) => {
+                    st.count("oracle_rejected_write_leaves_old_document")
+                }
+                Ok(d) => st.violation(
+                    "C13/storage/get_differs_from_written",
+                    json!({"monitor": "storage_vector_untyped", "when": "after rejected update", "got": brief(&d.get_field("v"), 600), "expected": brief(&first, 600)}),
+                ),
+                Err(e) => st.violation(format!("{BRICK}/collection_get/valid"), detail(format!("{e:?}"))),
+            }
+        }
         Ok(_) => {
             st.count(&format!("grey_accepted:collection_update:{VECTOR_UNTYPED}"));
-            if let Err(e) = coll.get(id).await {
-                violation_once(
-                    st,
-                    format!("{BRICK}/collection_get/{VECTOR_UNTYPED}"),
-                    json!({"id": id, "type": brief(&ft, 300), "value": brief(&v, 400), "config": cfg_label(cfg),
-                        "error": format!("{e:?}"),
-                        "note": "the document can no longer be read, updated or removed through the collection"}),
-                );
+            st.count(&format!("storage_vector_untyped:{}:accepted", if fits { "read_back_within_budget" } else { "read_back_over_budget" }));
+            match coll.get(id).await {
+                Err(e) => violation_once(st, format!("{BRICK}/collection_get/{VECTOR_UNTYPED}"), detail(format!("{e:?}"))),
+                Ok(d) => {
+                    if !d.get_field("v").map(|x| loose_eq(x, &v)).unwrap_or(false) {
+                        st.violation(
+                            "C13/read_back_changed/data/collection_update",
+                            json!({"class": VECTOR_UNTYPED, "variant": variant, "read_back": brief(&d.get_field("v"), 600)}),
+                        );
+                    } else {
+                        st.count("storage_vector_untyped_read_back_equal");
+                    }
+                    // and the document is still removable
+                    if let Err(e) = coll.remove(id).await {
+                        st.violation(format!("{BRICK}/collection_remove/{VECTOR_UNTYPED}"), detail(format!("{e:?}")));
+                    }
+                }
             }
         }
     }
@@ -755,7 +782,7 @@ fn miri_subprocess(seed: u64, n: u64) -> Stats {
     let mut st = Stats::default();
     let harness = vcore::run::verif_root().join("harness");
     let out = std::process::Command::new("timeout")
-        .arg("1500")
+        .arg("840")
         .args(["cargo", "+nightly", "miri", "run", "--offline", "-q", "-j", "6", "-p", "v_schema", "--bin", "c13_miri", "--"])
         .arg(format!("{seed}"))
         .arg(format!("{n}"))
@@ -777,6 +804,10 @@ fn miri_subprocess(seed: u64, n: u64) -> Stats {
                 };
                 st.add("miri_values_checked", num("values="));
                 st.add("miri_oracle_evaluations", num("evaluations="));
+                for k in ["invalid_mutations", "grey_mutations", "accept_write_implies_accept_read", "stored_bytes_reads",
+                    "as_bytes_unsafe_checks", "upgrade_chains", "upgrade_old_doc_reads", "typed_roundtrips", "wall_s"] {
+                    st.add(&format!("miri_{k}"), num(&format!("{k}=")));
+                }
                 if num("violations=") > 0 {
                     st.violation("C13/miri/oracle_violation_under_miri", json!({"stdout": tail(&stdout)}));
                 }
@@ -809,7 +840,7 @@ fn main() {
     run.assume("JSON null directly under Option and Some(None) are plain-serde-indistinguishable from None and are not generated as valid");
     let t = run.tier;
     let miri = if t == vcore::Tier::Thorough && run.wants("miri") && run.replay.is_none() {
-        let (seed, n) = (run.seed, run.arg_u64("miri_values", 250));
+        let (seed, n) = (run.seed, run.arg_u64("miri_values", 32));
         Some(std::thread::spawn(move || miri_subprocess(seed, n)))
     } else {
         None
@@ -835,15 +866,16 @@ fn main() {
     }
     if run.wants("vector_untyped") {
         // own sections: their (candidate-defect) alarm must not cut other exploration short
-        run.parallel("vector_untyped", t.pick(16, 64), 0.3, vector_untyped_case);
-        run.parallel("storage_vector_untyped", t.pick(8, 32), 0.3, |c, rng, st| block_on(storage_vector_untyped_case(c, rng, st)));
+        run.parallel("vector_untyped", t.pick(96, 640), 0.3, vector_untyped_case);
+        run.parallel("storage_vector_untyped", t.pick(48, 320), 0.3, |c, rng, st| block_on(storage_vector_untyped_case(c, rng, st)));
     }
     if let Some(h) = miri {
         match h.join() {
             Ok(st) => run.stats.merge(st),
             Err(_) => run.stats.inconclusive("miri driver thread panicked"),
         }
-        run.floor("miri_values_checked", 100);
+        run.floor("miri_values_checked", 24);
+        run.floor("miri_oracle_evaluations", 60);
     }
 
     // evidence floors
@@ -895,6 +927,13 @@ fn main() {
     run.floor("grey_accepted:collection_update", 50);
     run.floor("storage_upgrade_reopens", 100);
     run.floor("storage_budget_at_limit_roundtrip:nodes", 4);
+    // Vector in an untyped position: both sides of the read-back budget were exercised, and the
+    // accept-write => accept-read oracle was not vacuous (something within budget was accepted)
+    run.floor("grey:vector_in_untyped_position", 64);
+    run.floor_set("vector_untyped_variants", 24);
+    run.floor("vector_untyped:read_back_within_budget:accepted", 8);
+    run.floor("storage_vector_untyped:read_back_within_budget:accepted", 4);
+    run.floor("storage_vector_untyped_read_back_equal", 4);
     run.floor("storage_budget_over_limit_rejected:array_len", 4);
     run.floor("upgrade_chains", 500);
     run.floor("upgrades_applied", 1_500);
